@@ -178,8 +178,9 @@ def roundtrip(rep, repo, mod, cls, kw, varied):
                 "config[%r] = %r although the constructor was given %r" %
                 (k, v, want), loc=loc, instance=cfg)
   # R1 from_config accepts
+  stored = dict(config)     # the caller keeps this dictionary
   try:
-    q2 = pe.call(pe.getattr(cref, "from_config"), [dict(config)], {})
+    q2 = pe.call(pe.getattr(cref, "from_config"), [stored], {})
   except PyRaise as e:
     bad = [k for k in config if k not in params]
     rep.fail("R1", unit + ".from_config", "rejects-own-config" +
@@ -193,6 +194,25 @@ def roundtrip(rep, repo, mod, cls, kw, varied):
     rep.fail("R1", unit + ".from_config", "returns-non-object",
              "from_config returns %r" % (q2,), loc=loc, instance=cfg)
     return
+  # a stored config must stay usable: rebuilding from the same dictionary a
+  # second time gives the same quantizer as the first time
+  q2b = None
+  try:
+    q2b = pe.call(pe.getattr(cref, "from_config"), [stored], {})
+  except PyRaise as e:
+    rep.fail("R1", unit + ".from_config", "second-rebuild-rejected",
+             "from_config on the same dictionary a second time raises %s "
+             "(the first call modified the caller's dictionary)" % e,
+             loc=loc, instance=cfg)
+  if isinstance(q2b, Obj):
+    diff = sorted(a for a in set(q2.attrs) | set(q2b.attrs)
+                  if not same_value(q2.attrs.get(a), q2b.attrs.get(a)))
+    rep.check(not diff, "R1", unit + ".from_config",
+              "second-rebuild-differs",
+              "rebuilding twice from the same stored config gives different "
+              "quantizers (attributes %s): from_config modified the "
+              "dictionary it was given (keys now %s, were %s)" %
+              (diff, sorted(stored), sorted(config)), loc=loc, instance=cfg)
   # R4 idempotent rewrites
   try:
     config2 = pe.call(pe.getattr(q2, "get_config"), [], {})
